@@ -47,7 +47,7 @@ func main() {
 	}
 	encStream(rep, seed, nEnc, mode != "search")
 	confStream(rep, seed, nHist, nSteps, mode != "search", -1)
-	txStream(rep, seed)
+	txStream(rep, seed, mode != "search")
 	rep.Write()
 }
 
@@ -193,7 +193,7 @@ func replay() {
 	rep := lib.NewReport("C12")
 	switch {
 	case ref.TxCase != "":
-		txStream(rep, doc.Seed)
+		txStream(rep, doc.Seed, false)
 	case ref.History != nil:
 		nSteps := 12
 		if doc.Tier == "thorough" {
